@@ -344,3 +344,11 @@ func (c *Ctx) Finish() {
 	}
 	os.Exit(0)
 }
+
+// ClearReplays removes witness files left by an earlier run of the same check, tier and seed.
+func (c *Ctx) ClearReplays() {
+	m, _ := filepath.Glob(filepath.Join(VerifDir, "replays", fmt.Sprintf("%s-%s-seed%d-*.json", c.ID, c.Tier, c.Seed)))
+	for _, f := range m {
+		os.Remove(f)
+	}
+}
